@@ -605,6 +605,14 @@ pub fn full_decaps(
         .ok_or_else(|| Error::Kem("could not open the encapsulation".to_string()))
 }
 
+/// Returns the rights among the given ones the MPK holds an encryption key for.
+pub fn filter_encryption_rights(mpk: &MasterPublicKey, rights: HashSet<Right>) -> HashSet<Right> {
+    rights
+        .into_iter()
+        .filter(|r| mpk.encryption_keys.contains_key(r))
+        .collect()
+}
+
 /// Updates the MSK such that it has at least one secret per right given, and no
 /// secret for rights that are not given. Updates hybridization of the remaining
 /// secrets when required.
